@@ -176,7 +176,12 @@ impl View {
         if let Some(project) = self.project {
             let shape = match (project.individuals, project.shape) {
                 (Some(individuals), None) => {
-                    Shape(individuals.into_iter().map(|i| 2 * i + 1).collect())
+                    Shape(
+                        individuals
+                            .into_iter()
+                            .map(|i| i.saturating_mul(2).saturating_add(1))
+                            .collect(),
+                    )
                 }
                 (None, Some(shape)) => Shape(shape),
                 _ => unreachable!("checked by clap"),
